@@ -388,11 +388,17 @@ class Functor(pg_object.Object, utils.Functor):
   def _apply_call_time_overrides_to_members(self, **kwargs):
     """Overrides member values within the scope."""
     assert self._tls is not None
+    # A functor may call itself (directly or through a callee) from `_call`:
+    # restore the overrides of the enclosing call instead of dropping them.
+    previous = getattr(self._tls, Functor._TLS_OVERRIDE_MEMBERS_KEY, None)
     setattr(self._tls, Functor._TLS_OVERRIDE_MEMBERS_KEY, kwargs)
     try:
       yield
     finally:
-      delattr(self._tls, Functor._TLS_OVERRIDE_MEMBERS_KEY)
+      if previous is None:
+        delattr(self._tls, Functor._TLS_OVERRIDE_MEMBERS_KEY)
+      else:
+        setattr(self._tls, Functor._TLS_OVERRIDE_MEMBERS_KEY, previous)
 
   def _parse_call_time_overrides(
       self, *args, **kwargs
